@@ -71,6 +71,9 @@ func main() {
 		case "corpus":
 			printCorpus()
 			return
+		case "probe2":
+			probe2()
+			return
 		}
 	}
 	vh.Main(gen, run)
@@ -1576,5 +1579,23 @@ func printCorpus() {
 		pool(s.Map(s.KV{"type", s.Str("once")}, s.KV{"times", s.Int(1)}), httpGun).InsertKey(s.Path{{Key: "pools"}, {Idx: 0, IsIdx: true}, {Key: "startup"}}, "from", s.Int(1)))
 	for _, l := range out {
 		fmt.Println(l)
+	}
+}
+
+func probe2() {
+	s.Import()
+	prepareFs()
+	reg := s.NewReg()
+	tab := reg.AppliedTable()
+	for _, e := range reg.All {
+		gs := tab[e.Iface+"|"+e.Name]
+		fmt.Printf("%s %s conf=%v groups=%d\n", e.Iface, e.Name, e.Conf != nil, len(gs))
+		for _, g := range gs {
+			var ks []string
+			for _, rl := range g.Rules {
+				ks = append(ks, strings.Join(rl.Dst, "."))
+			}
+			fmt.Printf("    %s: %s\n", g.Label, strings.Join(ks, " "))
+		}
 	}
 }
